@@ -174,6 +174,12 @@ static std::string run_op(tdigest<T>& td, const std::vector<std::string>& w, con
 
 static std::string step(const std::vector<std::string>& w) {
   const std::string& op = w[0];
+  if (op == "consts") {   // translator cross-check: the constants as compiled
+    std::ostringstream os;
+    os << "K " << tdigest<double>::DEFAULT_K << " " << vh::hex_f64(scale_function().normalizer(20.0, 7.0)) << " "
+       << vh::hex_f64(scale_function().normalizer(400.0, 1000000.0)) << " " << vh::hex_f64(scale_function().max(0.3, 0.5));
+    return os.str();
+  }
   if (op == "new") {
     if (w.size() != 4) return "bad-op";
     unsigned long id, k;
